@@ -186,6 +186,10 @@ def catalog(n: int, in_fn: bool, at_top: bool):
     A("try", "try:", f"    tr{n} = v + 1", "    led.on()", "except:", "    led.off()")
     A("try promote", "try:", f"    tp{n} = v + 1", "except:", f"    tp{n} = 0", f"mon.write(tp{n})")
     A("augassign", f"ag{n} = 1", f"ag{n} += v", f"ag{n} *= 2")
+    if in_fn:                                  # the function's own parameter (seq_fn(c: int)): re-assigned, never re-declared
+        A("param reassign", "c = c + 1")
+        A("param augassign", "c += v")
+        A("param in tuple", f"pt{n} = 0", f"c, pt{n} = pt{n}, c")
     A("str augassign", f'sg{n} = "a"', f'sg{n} += "b"')
     return E
 
@@ -203,8 +207,8 @@ def wrap(context: str, stmts):
         loop = ["hled = Led(35)", "hmotor = DCMotor(36, 37, 38)", "hservo = Servo(39)", "hrgb = RGBLed(40, 41, 42)"] + \
                [l.replace("motor2.", "hmotor.").replace("led2.", "hled.").replace("arm.", "hservo.").replace("rgb.", "hrgb.") for l in flat]
     elif context == "fn":
-        pre = ["def seq_fn():"] + ind(flat)
-        loop = ["seq_fn()", "sleep(50)"]
+        pre = ["def seq_fn(c: int):"] + ind(flat)
+        loop = ["seq_fn(v)", "sleep(50)"]
     elif context == "fn-if":
         pre = ["def seq_fn(c: int):", "    if c > 2:"] + ind(flat, 2)
         loop = ["seq_fn(v)", "sleep(50)"]
